@@ -851,6 +851,22 @@ impl WorldA {
                     self.check_send_side(i, if d == 0 { CL } else { SV }, obs);
                 }
             }
+            K_CHURN => {
+                // a reconnect storm between two polls of the event queue: one client is removed and added again 100-200 times
+                let i = op.a as usize % ncl;
+                let id = self.conns[i].id;
+                let n = 100 + (op.b % 101) as usize;
+                obs.count("op.churn");
+                for _ in 0..n {
+                    self.track_sv_reasons();
+                    if self.ep_exists(i, SV) {
+                        self.expect_removal(id, DisconnectReason::Transport);
+                        self.server.remove_connection(id);
+                        self.conns[i].present = false;
+                    }
+                    self.connect(i, false);
+                }
+            }
             K_SUBMITBURST => {
                 // an application that submits a volley of messages of one size at once (a level download, a replay of buffered
                 // state): 40..100 messages, so that per-channel counters move far within one run
